@@ -1119,6 +1119,12 @@ def skymask(invvar, andmask, ormask=None, ngrow=2):
     # brightsky = sdss_flagval('SPPIXMASK', 'BRIGHTSKY')
     if ormask is not None:
         ormask64 = ormask.astype(np.uint64)
+        if ormask.dtype.kind == 'i':
+            #
+            # The conversion sign-extends negative values:
+            # keep only the bits the mask type has.
+            #
+            ormask64 = ormask64 & np.uint64(2**(8*ormask.dtype.itemsize) - 1)
         badmask = badmask | ((ormask64 & badskychi) != 0)
         badmask = badmask | ((ormask64 & redmonster) != 0)
         # badmask = badmask | ((andmask & brightsky) != 0)
